@@ -259,8 +259,12 @@ def generate(seed, tier):
     env_attrs = r.choice((None, "team=env,zone=eu%20west", "service.name=fromattrs", "bad,team=x"))
     if r.random() < 0.1:
         env_attrs = ",".join(["team=env"] + ["env.k%d=v%d" % (j, j) for j in range(r.choice((60, 140, 260)))])
+    # values that are fine as attributes but awkward on the wire: not UTF-8 (an environment value in another encoding
+    # arrives with surrogate escapes), an integer beyond 64 bit
+    if provs and r.random() < 0.2:
+        provs[0]["attrs"].update({"odd.name": "caf\udce9", "odd.big": 2 ** 70})
     return {"arm": "wire", "env_attrs": env_attrs,
-            "env_service": r.choice((None, None, "envsvc")), "provs": provs, "knobs": knobs}
+            "env_service": r.choice((None, None, "envsvc", "caf\udce9")), "provs": provs, "knobs": knobs}
 
 
 def shrink_candidates(s):
@@ -415,6 +419,16 @@ def _seq(s, ch):
             "digest": "seq-%s" % common.__name__ + repr((len(viol), s["ops"]))[:200], "key": key, "order": ""}
 
 
+def _wire_form(v):
+    """What a faithful transport makes of a value: text that is not UTF-8 escaped, an integer beyond 64 bit as text."""
+    from simkit.refmodel import esc
+    if isinstance(v, str):
+        return esc(v)
+    if isinstance(v, int) and not isinstance(v, bool) and not -2 ** 63 <= v < 2 ** 63:
+        return str(v)
+    return v
+
+
 def h_(text):
     import hashlib
     return hashlib.sha1(text.encode()).hexdigest()[:16]
@@ -481,7 +495,7 @@ def _wire(s, ch):
                 if key_ not in res:
                     viol.append(V("resource-key-missing:%s" % ("sdk-or-service" if key_.startswith(("telemetry", "service")) else "source"),
                                   "%s lacks %r (%s); it has %d keys: %r" % (where, key_, val, len(res), sorted(res)[:12])))
-                elif val is not None and res[key_] != val:
+                elif val is not None and res[key_] != _wire_form(val):
                     viol.append(V("resource-precedence", "%s: %s=%r, the latest source says %r; sources env_attrs=%r env_service=%r "
                                   "providers (in order) %s" % (where, key_, res[key_], val, s["env_attrs"], s["env_service"],
                                                                [(p_["name"], p_["order"], p_["attrs"]) for p_ in sorted(s["provs"], key=lambda x: x["order"])])))
